@@ -426,6 +426,8 @@ type Req struct {
 	// connection to an httptest.Server; the instrumented handler hijacks the connection and answers 101 itself
 	Upgrade bool `json:"upgrade,omitempty"`
 	Query   string `json:"query,omitempty"` // raw query string (exec controls only)
+	// a SECOND Authorization header line after the first (Header.Get reads the first one only); hex
+	Auth2 string `json:"auth2,omitempty"`
 }
 type Obs struct {
 	Status  int    `json:"status"`
@@ -459,6 +461,9 @@ func do(root *mux.Router, q Req) Obs {
 	req := httptest.NewRequest(q.Method, url, strings.NewReader("{}"))
 	if q.HasAuth {
 		req.Header["Authorization"] = []string{hx.UnHex(q.Auth)}
+		if q.Auth2 != "" {
+			req.Header["Authorization"] = append(req.Header["Authorization"], hx.UnHex(q.Auth2))
+		}
 	}
 	if q.Gzip {
 		req.Header.Set("Accept-Encoding", "gzip")
@@ -605,6 +610,16 @@ func headerClasses(login, pass string) []hclass {
 		{"double-colon", true, "Basic " + b64(login+"::"+pass)},
 		{"swapped", true, "Basic " + b64(pass+":"+login)},
 		{"case-changed", true, "Basic " + b64(strings.ToUpper(login)+":"+pass)},
+		{"pass-case-changed", true, "Basic " + b64(login+":"+swapCase(pass))},
+		{"pass-trailing-space", true, "Basic " + b64(login+":"+pass+" ")},
+		{"pass-leading-space", true, "Basic " + b64(login+": "+pass)},
+		{"pass-trailing-newline", true, "Basic " + b64(login+":"+pass+"\n")},
+		{"pass-trailing-nul", true, "Basic " + b64(login+":"+pass+"\x00")},
+		{"user-leading-space", true, "Basic " + b64(" "+login+":"+pass)},
+		{"user-trailing-space", true, "Basic " + b64(login+" :"+pass)},
+		{"user-trailing-tab", true, "Basic " + b64(login+"\t:"+pass)},
+		{"payload-trailing-crlf", true, "Basic " + b64(login+":"+pass+"\r\n")},
+		{"scheme-trailing-spaces", true, "Basic " + right + "   "},
 		{"trailing-garbage", true, "Basic " + right + "!"},
 		{"trailing-garbage-2", true, "Basic " + right + "@@@@"},
 		{"trailing-valid-b64", true, "Basic " + right + "AAAA"},
@@ -620,6 +635,22 @@ func headerClasses(login, pass string) []hclass {
 		{"right", true, "Basic " + right},
 	}
 	return cs
+}
+
+func swapCase(s string) string {
+	b := []byte(s)
+	for i, c := range b {
+		switch {
+		case c >= 'a' && c <= 'z':
+			b[i] = c - 32
+		case c >= 'A' && c <= 'Z':
+			b[i] = c + 32
+		}
+	}
+	if string(b) == s {
+		return s + "X"
+	}
+	return string(b)
 }
 
 func randomHeader(r *rand.Rand, login, pass string) hclass {
@@ -803,6 +834,84 @@ func mwProbe() map[string]interface{} {
 	return map[string]interface{}{"kind": "mwprobe", "n": n, "bad": bad, "rows": rows}
 }
 
+// BasicAuthMiddleware alone, across everything of a request that is NOT the Authorization header: method, path, other
+// headers, query, remote address.  model/Auth.v decides on the Authorization value only; an exemption by path / method /
+// address, or a second way to present credentials, shows up here as a request without the credentials reaching next.
+func authProbe() map[string]interface{} {
+	type row struct {
+		Method  string `json:"method"`
+		Path    string `json:"path"`
+		Headers string `json:"headers"`
+		Remote  string `json:"remote"`
+		Class   string `json:"class"`
+		Auth    string `json:"authorization"`
+		Status  int    `json:"status"`
+		Next    bool   `json:"next"`
+	}
+	login, pass := "admin", "s3cr:et"
+	right := "Basic " + b64(login+":"+pass)
+	hsets := []struct {
+		name string
+		h    map[string]string
+	}{
+		{"none", nil},
+		{"preflight", map[string]string{"Origin": "http://elsewhere.example", "Access-Control-Request-Method": "POST", "Access-Control-Request-Headers": "authorization"}},
+		{"upgrade", map[string]string{"Connection": "Upgrade", "Upgrade": "websocket", "Sec-WebSocket-Version": "13", "Sec-WebSocket-Key": "dGhlIHNhbXBsZSBub25jZQ=="}},
+		{"forwarded-local", map[string]string{"X-Forwarded-For": "127.0.0.1", "X-Real-Ip": "127.0.0.1", "Forwarded": "for=127.0.0.1"}},
+		{"proxy-authorization", map[string]string{"Proxy-Authorization": right, "X-Authorization": right, "X-Api-Key": pass, "X-Scope-Orgid": "1"}},
+		{"cookie", map[string]string{"Cookie": "Authorization=" + b64(login+":"+pass) + "; token=" + pass + "; session=" + pass}},
+		{"internal-agent", map[string]string{"User-Agent": "kube-probe/1.27", "X-Internal": "1", "X-Health-Check": "1"}},
+	}
+	paths := []string{"/ready", "/metrics", "/config", "/health", "/healthz", "/", "/favicon.ico", "/debug/pprof/", "/loki/api/v1/push", "/loki/api/v1/tail",
+		"/api/status/buildinfo", "/ready?token=s3cr:et&password=s3cr:et&login=admin&access_token=" + b64(login+":"+pass), "/" + login + ":" + pass + "@/ready"}
+	remotes := []string{"192.0.2.1:1234", "127.0.0.1:5555", "[::1]:4040"}
+	auths := []struct {
+		class string
+		has   bool
+		val   string
+	}{{"absent", false, ""}, {"wrong-pass", true, "Basic " + b64(login+":"+pass+"x")}, {"right", true, right}}
+	n, bad := 0, 0
+	var rows []row
+	for _, method := range []string{"GET", "POST", "OPTIONS", "HEAD", "DELETE", "PUT", "PATCH", "CONNECT", "TRACE", "PROPFIND"} {
+		for _, p := range paths {
+			for hi, hs := range hsets {
+				for ri, rem := range remotes {
+					if hi != 0 && ri != 0 && (hi+ri)%2 == 0 {
+						continue
+					}
+					for _, au := range auths {
+						next := false
+						h := middleware.BasicAuthMiddleware(login, pass)(http.HandlerFunc(func(w http.ResponseWriter, r *http.Request) {
+							next = true
+							w.WriteHeader(299)
+						}))
+						req := httptest.NewRequest(method, "http://qryn.test"+p, nil)
+						req.RemoteAddr = rem
+						for k, v := range hs.h {
+							req.Header.Set(k, v)
+						}
+						if au.has {
+							req.Header.Set("Authorization", au.val)
+						}
+						rec := httptest.NewRecorder()
+						hx.Catch(func() { h.ServeHTTP(rec, req) })
+						n++
+						want := au.class == "right"
+						okStatus := want || rec.Code == 401
+						if next != want || !okStatus {
+							bad++
+							if len(rows) < 8 {
+								rows = append(rows, row{method, p, hs.name, rem, au.class, au.val, rec.Code, next})
+							}
+						}
+					}
+				}
+			}
+		}
+	}
+	return map[string]interface{}{"kind": "authprobe", "n": n, "bad": bad, "rows": rows, "login": login, "pass": pass}
+}
+
 // http.DefaultServeMux of THIS process: the harness links the repository's packages (ctrl, reader, writer, view, shared), so
 // whatever their imports register on the default mux (net/http/pprof, expvar, http.Handle in an init) is registered here too.
 // The translator's census proves that nothing serves the default mux; if something does, these are the paths it exposes.
@@ -900,6 +1009,7 @@ func main() {
 	}
 	out.Put(muxProbe())
 	out.Put(mwProbe())
+	out.Put(authProbe())
 	out.Put(defaultMuxProbe(asm.DefaultMuxPatterns))
 
 	for ci, c := range configs {
@@ -1054,6 +1164,20 @@ func main() {
 						HStatus: statuses[k%len(statuses)]}
 					k++
 					emit("case", hc.name, x.rc, q)
+				}
+			}
+			// two Authorization header lines: the decision is taken on the FIRST (Header.Get); a right second line does not help
+			if c.Tier == "rich" {
+				for ti, t := range targets {
+					if ti >= nRoute || ti%7 != 0 {
+						continue
+					}
+					for _, pr := range [][2]string{{"wrong-pass", "right"}, {"right", "wrong-pass"}, {"bearer", "right"}, {"present-empty", "right"}} {
+						h1, h2 := byName[pr[0]], byName[pr[1]]
+						q := Req{Method: t.method, Path: t.path, HasAuth: true, Auth: hx.Hex(h1.val), Auth2: hx.Hex(h2.val), Gzip: k%2 == 0, HStatus: statuses[k%len(statuses)]}
+						k++
+						emit("case", pr[0], "two-authorization-headers:"+pr[0]+"+"+pr[1], q)
+					}
 				}
 			}
 			// websocket handshakes on the tail routes (real TCP connection; the instrumented handler hijacks and answers 101)
